@@ -993,38 +993,69 @@ def ir_fields(s):
     return dict(f.split("=", 1) for f in s.split(";") if "=" in f)
 
 
+def close_hex(x, y):
+    """two constants that agree to about 6 significant digits: the signature of a value written with too few digits"""
+    try:
+        u, v = frombits(x), frombits(y)
+    except Exception:
+        return False
+    return u != v and abs(u - v) <= 2e-5 * max(abs(u), abs(v))
+
+
 def site_of_difference(iface, model, emitted):
-    """(stable key, description) of the first field where the emitted IR differs from the model"""
+    """(kind, description, subject) of the difference between the emitted IR and the model: the first difference that is
+    not a constant written with too few digits if there is one, else the first of those (kind suffixed `-precision`)"""
     a, b = ir_fields(model), ir_fields(emitted)
+    diffs = []          # (kind, description, subject, precision only)
     for f in ("nargs", "binds", "slots", "keys", "out", "law", "ret"):
         if a.get(f) == b.get(f):
             continue
         if f == "binds":
             la, lb = a[f].split(","), b.get(f, "").split(",")
+            if len(la) != len(lb):
+                diffs.append(("binding", "declarations %s emitted as %s" % (a[f], b.get(f)), None, False))
             for x, y in zip(la, lb):
                 if x != y:
                     nx, ny = x.split(":"), y.split(":")
                     if nx[:2] == ny[:2] and nx[1] == "const":
-                        return ("constant-value", "value of `%s`: declared %s, emitted %s" % (nx[0], fmt_bits(nx[2]), fmt_bits(ny[2])), nx[0])
-                    return ("binding", "declaration `%s` emitted as `%s`" % (x, y), nx[0])
-            return ("binding", "declarations %s emitted as %s" % (a[f], b.get(f)), None)
-        if f == "slots":
-            for k, (x, y) in enumerate(zip(a[f].split(","), b.get(f, "").split(","))):
+                        diffs.append(("constant-value", "value of `%s`: declared %s, emitted %s" % (nx[0], fmt_bits(nx[2]), fmt_bits(ny[2])), nx[0],
+                                      close_hex(nx[2], ny[2])))
+                    else:
+                        diffs.append(("binding", "declaration `%s` emitted as `%s`" % (x, y), nx[0], False))
+        elif f == "slots":
+            la, lb = a[f].split(","), b.get(f, "").split(",")
+            if len(la) != len(lb):
+                diffs.append(("parameter-default", "parameter slots %s emitted as %s" % (a[f], b.get(f)), None, False))
+            for k, (x, y) in enumerate(zip(la, lb)):
                 if x != y:
-                    return ("parameter-default", "default value of parameter slot %d: declared %s, emitted %s" % (k, fmt_bits(x), fmt_bits(y)), k)
-        if f == "law":
+                    diffs.append(("parameter-default", "default value of parameter slot %d: declared %s, emitted %s" % (k, fmt_bits(x), fmt_bits(y)), k,
+                                  close_hex(x, y)))
+        elif f == "law":
             ta, tb = a[f].split(), b.get(f, "").split()
+            if len(ta) != len(tb):
+                diffs.append(("law", "law `%s` emitted as `%s`" % (a[f][:200], b.get(f, "")[:200]), None, False))
             for x, y in zip(ta, tb):
-                if x != y:
-                    if ":" in x and ":" in y:       # a point of a table
-                        return ("law", "table point declared (%s), emitted (%s)" % (", ".join(fmt_bits(t) for t in x.split(":") if t != "@"),
-                                                                                  ", ".join(fmt_bits(t) for t in y.split(":") if t != "@")), None)
-                    if ta[0] == tb[0] == "const":
-                        return ("law", "value declared %s, emitted %s" % (fmt_bits(x), fmt_bits(y)), None)
+                if x == y:
+                    continue
+                if ":" in x and ":" in y and ta[0] == tb[0] and ta[0] in ("lin", "spl"):       # a point of a table
+                    px, py = x.split(":"), y.split(":")
+                    prec = len(px) == len(py) and all(u == v or close_hex(u, v) for u, v in zip(px, py))
+                    diffs.append(("law", "table point declared (%s), emitted (%s)" % (", ".join(fmt_bits(t) for t in px if t != "@"),
+                                                                                        ", ".join(fmt_bits(t) for t in py if t != "@")), None, prec))
+                elif ta[0] == tb[0] == "const":
+                    diffs.append(("law", "value declared %s, emitted %s" % (fmt_bits(x), fmt_bits(y)), None, close_hex(x, y)))
+                else:
+                    diffs.append(("law", "law `%s` emitted as `%s`" % (a[f][:200], b.get(f, "")[:200]), None, False))
                     break
-            return ("law", "law `%s` emitted as `%s`" % (a[f][:200], b.get(f, "")[:200]), None)
-        return (f, "%s: model `%s`, emitted `%s`" % (f, a.get(f), b.get(f)), None)
-    return ("unknown", "IR strings differ", None)
+        else:
+            diffs.append((f, "%s: model `%s`, emitted `%s`" % (f, a.get(f), b.get(f)), None, False))
+    if not diffs:
+        return ("unknown", "IR strings differ", None)
+    hard = [x for x in diffs if not x[3]]
+    if hard:
+        return hard[0][:3]
+    k, desc, subj, _ = diffs[0]
+    return (k + "-precision", desc, subj)
 
 
 def fmt_bits(h):
@@ -1432,7 +1463,7 @@ def describe(got):
 
 
 def site_file(itf, td, d):
-    kind = td[0]
+    kind = td[0].replace("-precision", "")
     if kind == "constant-value":
         if td[2] in [s[0] for s in d.statics]:
             return "mfront/src/CodeGeneratorUtilities.cxx:writeStaticVariables"
